@@ -108,6 +108,18 @@ fn gen_value(t: &mut Tape, kind: usize, nasty: bool) -> V {
     if t.chance(1, 6) {
         return V::Null;
     }
+    if kind == 10 {
+        // one column holding INTs and REALs of equal numeric value (the branches of a CASE): equal as values, printed differently
+        return match t.draw(7) {
+            0 => V::Int(3),
+            1 => V::Real(3.0),
+            2 => V::Int(0),
+            3 => V::Real(0.0),
+            4 => V::Real(-0.0),
+            5 => V::Int(10),
+            _ => V::Real(10.0),
+        };
+    }
     if kind >= 6 {
         let ek = kind - 6; // array of scalar kind 0..=3
         let n = match t.draw(4) {
@@ -248,7 +260,7 @@ impl Property for C17 {
                 name = format!("{}{}", name, i);
             }
             columns.push(name);
-            kinds.push(if lone_input { 3 } else { t.draw(10) });
+            kinds.push(if lone_input { if t.chance(1, 6) { 10 } else { 3 } } else { t.draw(11) });
         }
         let nprints = 1 + t.draw(4);
         let mut prints = Vec::new();
